@@ -198,7 +198,16 @@ def run(case, ctx):
     out.tags |= deck.tags
     out.structure = ';'.join(' '.join(m.atoms()) for m in deck.mats) + '|' + \
         ';'.join(f'{c.mat}:{c.rho}' for c in deck.cells)
-    run_ = convert_deck(case, ctx, out, deck)
+    layout = None
+    if case.rng.random() < 0.3 and not deck.extra_data:
+        # material cards are often long: written over several lines with
+        # either kind of continuation, with comments in between
+        from .. import formats
+        layout = formats.Recipe(case.rng, only=case.rng.sample(
+            ['amp', 'amp', 'cont5', 'ccomment', 'ccomment', 'dollar',
+             'blanks', 'tabs', 'indent'], 3))
+        out.tags.add('layout.' + '+'.join(sorted(layout.on)))
+    run_ = convert_deck(case, ctx, out, deck, layout=layout)
     if case.family == 'mixed-signs':
         out.judged += 1
         out.counters['mixed_sign_cards'] += 1
